@@ -46,7 +46,14 @@ def schedule_world(seed, strategy, scratch, **kw):
     from zv.sched import Sched
     from ZODB.POSException import ConflictError, ReadConflictError, UndoError
     from persistent.TimeStamp import TimeStamp
-    FSM = mvccload.setup(True)
+    if strategy == 'free':
+        # real threads, original locks, bytecode-level preemption (see sched.FreeSched); never in a process with the baton scheduler
+        assert not mvccload._installed
+        from zv import recfs as _r
+        FSM = _r.install()
+        _r.LOG.enabled = False
+    else:
+        FSM = mvccload.setup(True)
     d = os.path.join(scratch, 'w')
     shutil.rmtree(d, ignore_errors=True)
     os.makedirs(d)
@@ -73,7 +80,11 @@ def schedule_world(seed, strategy, scratch, **kw):
     NC = mvccload.NCELL
     ptid = db.lastTransaction()
     ptime = TimeStamp(ptid).timeTime() + 0.0001
-    s = Sched(seed, strategy, **kw)
+    if strategy == 'free':
+        from zv.sched import FreeSched
+        s = FreeSched(seed)
+    else:
+        s = Sched(seed, strategy, **kw)
     wrnd = random.Random(seed * 13 + 5)
     uid = itertools.count(1)
     oks = []                  # (event index of return, token, cells, tid)
@@ -696,12 +707,17 @@ def run_shard(params):
         seed = (s0 + i * 104729) & 0x7fffffff
         if part in (0, 1):
             mode = ('sticky', 'pct', 'park', 'sticky', 'park')[i % 5]
+            if params['shard'] % 8 == 1:
+                mode = 'free'                       # 2 of the 8 schedule shards: freely running threads
+                sh.count('free_running_worlds')
             kw = {}
             strategy = mode
             if mode == 'sticky':
                 kw['stick'] = rnd.choice([0.5, 0.9, 0.97])
             elif mode == 'pct':
                 kw['pct_depth'] = rnd.choice([1, 2, 3])
+            elif mode == 'free':
+                pass
             else:
                 strategy = 'pct'
                 if sweep is None:
